@@ -38,6 +38,23 @@ def doubles(rng, n_random):
     return out
 
 
+def limb_cases():
+    """values whose scaled integer |x| * 10^s lies just below a power of two (word boundaries of multi-word
+    digit generators) with the deciding digit on either side of the rounding point"""
+    from fractions import Fraction
+    out = []
+    for k in (8, 16, 24, 31, 32, 33, 40, 48):
+        for d in (Fraction(1, 4), Fraction(1, 2), Fraction(3, 4), Fraction(5, 4), Fraction(1, 1)):
+            target = Fraction(2 ** k) - d
+            for p in range(0, 18):
+                out.append(("%%.%df" % p, float(target / 10 ** p)))
+            q = len(str(2 ** k)) - 1
+            for j in (-7, 0, 9):
+                x = float(target * Fraction(10) ** j)
+                out.append(("%%.%de" % q, x)); out.append(("%%.%dg" % (q + 1), x)); out.append(("%%.%dE" % q, -x))
+    return out
+
+
 def check(ctx):
     drv = c06.build(ctx)
     r = ctx.tlc("PrintfFloatMC", "PrintfFloatMCthorough.cfg" if ctx.thorough else "PrintfFloatMC.cfg", workers=16, coverage=False, xmx="8g", timeout=3000)
@@ -63,6 +80,9 @@ def check(ctx):
                 ps = str(rng.choice([0, 1, 3, 6, 12, 17, -1])) if pr == ".*" else "n"
                 script.append("Pd %s %s %s %s" % (fmt([ord(c) for c in f]), ws, ps, fmt(dbits(x)))); n += 1
         if i % 100 == 99: script.append("R")
+    script.append("R")
+    for (f, x) in limb_cases():
+        script.append("Pd %s n n %s" % (fmt([ord(c) for c in f]), fmt(dbits(x)))); n += 1
     # memory safety beyond the quantified precisions: large precisions and widths
     script.append("R")
     for x in (1e300, 1.7976931348623157e308, 5e-324, 1e-300, 0.1, 1.0 / 3, 123456789.123456789, float("inf"), float("nan")):
